@@ -127,3 +127,8 @@ Proof.
   revert b. induction a as [|x a IH]; intros [|y b] H; cbn in *; try lia.
   rewrite IH by lia. lia.
 Qed.
+
+(* SSSE3 / AVX2 sign helpers used by jquanti-avx2.asm *)
+Definition pabsw (a : Z) : Z := w16 (Z.abs (s16 a)).
+Definition psignw (a b : Z) : Z :=
+  let sb := s16 b in if sb <? 0 then w16 (- a) else if sb =? 0 then 0 else a.
